@@ -34,6 +34,10 @@ func (ex *Exec) step(fr *frame, st *State, reach *Term, instr ssa.Instruction, e
 			p := ex.operand(fr, in.X)
 			ex.derefCheck(fr, st, &reach, p, in, "load")
 			v := ex.load(st, p, in.Type())
+			if t, ok := v.(*Term); ok && t.IsLeaf() && ex.funcVals[t.Op] != nil {
+				fr.env[in] = t
+				return reach
+			}
 			if t, ok := v.(*Term); ok {
 				t = vc.Def(fr.fn.Name()+"."+in.Name(), t)
 				ex.assumeAlive(st, reach, t, in.Type())
@@ -624,10 +628,9 @@ func (ex *Exec) lookup(fr *frame, st *State, reach *Term, in *ssa.Lookup) {
 	}
 	m := ex.term(fr, in.X)
 	k := ex.term(fr, in.Index)
-	isnil := Eq(m, IntLit(0))
-	has := vc.Def(fr.fn.Name()+"."+in.Name()+".ok", And(Not(isnil), Select(ex.mapDom(st, mt, m), k)))
-	// invariant of the map model: absent keys read as zero
-	val := vc.Def(fr.fn.Name()+"."+in.Name()+".v", Ite(has, Select(ex.mapVal(st, mt, m), k), vc.Zero(mt.Elem())))
+	has := vc.Def(fr.fn.Name()+"."+in.Name()+".ok", Select(ex.mapDom(st, mt, m), k))
+	// invariant of the map model: absent keys (and all keys of the nil map) read as zero
+	val := vc.Def(fr.fn.Name()+"."+in.Name()+".v", Select(ex.mapVal(st, mt, m), k))
 	ex.assumeAlive(st, reach, val, mt.Elem())
 	if in.CommaOk {
 		fr.env[in] = Tuple{val, has}
